@@ -109,7 +109,14 @@ Definition oracle_C13_code (n : node) : N :=
       let code := out_call_flags_code w c in
       if N.eqb code 1 then
         match vnode_parts c with
-        | Some v => if tag_is_builtin_host (vp_tag v) then 11 else 1
+        | Some v =>
+            (* known only if treating the host as an element would make every prop covered *)
+            if tag_is_builtin_host (vp_tag v)
+               && match vp_props v with
+                  | Obj props => forallb (prop_ok false (vp_flags v) (vp_dyn v)) props
+                  | _ => false
+                  end
+            then 11 else 1
         | None => 1
         end
       else code
